@@ -74,6 +74,28 @@ def scan_doc(job):
     return once(), once()
 
 
+def _twice_in_one_run(job):
+    """the same bytes under two names in one scan, a file full of pragmas aimed at the document's own failures between them"""
+    doc, fails = job
+    from pymarkdown.api import PyMarkdownApi, PyMarkdownApiException
+    nl = max(l for l, _, _ in fails)
+    mid = []
+    for ln in range(1, nl):
+        ids = sorted({r.lower() for l, _, r in fails if l == ln + 1})
+        mid.append(f"<!-- pyml disable-next-line {','.join(ids)}-->" if ids else "x")
+    with core.Scratch("pv-c07t-") as d:
+        for n, t in (("f1.md", doc), ("f2.md", "\n".join(mid + ["y"]) + "\n"), ("f3.md", doc)):
+            open(os.path.join(d, n), "w", encoding="utf-8", newline="").write(t)
+        try:
+            r = PyMarkdownApi().scan_path(d)
+        except PyMarkdownApiException as e:
+            return "err", str(e)[:200]
+        per = {}
+        for f in r.scan_failures:
+            per.setdefault(os.path.basename(f.scan_file), []).append((f.line_number, f.column_number, f.rule_id, f.extra_error_information or ""))
+    return "ok", per.get("f1.md", []), per.get("f3.md", [])
+
+
 def check_doc_result(ctx, doc, config, res, parse_ok):
     (st, fs, _), second = res
     inp = {"doc": doc, "config": config}
@@ -189,6 +211,13 @@ def run(ctx):
             ctx.seen([d, c])
         check_doc_result(ctx, d, c, r, parse_ok.get(d, True))
     ctx.sample({"doc": jobs[7][0], "config": jobs[7][1], "failures": results[7][0][1]})
+    # the same input twice in one invocation prints the same thing
+    tw = [(d, [(l, c, rid) for (l, c, rid, _) in r[0][1]]) for (d, c), r in zip(jobs, results) if c == "default" and r[0][0] == "ok" and r[0][1] and "\r" not in d]
+    tw = tw[: (150 if ctx.tier == "quick" else 2500)]
+    for (d, fs), r in zip(tw, impl.pmap(_twice_in_one_run, tw, chunksize=8)):
+        ctx.count(1, "same-document-twice-in-one-run")
+        if r[0] == "ok" and r[1] != r[2]:
+            ctx.violation("determinism", {"doc": d, "config": "default", "run": "f1.md = f3.md = doc, f2.md = pragmas"}, f"the same bytes scanned twice in one run print {r[1]!r} and {r[2]!r}", group="determinism-in-one-run")
     ctx.unit("documents", docs=len(docs), alone_docs=len(alone_docs), rules=len(all_rule_ids()),
              unparseable_skipped=sum(1 for v in parse_ok.values() if not v))
     ctx.trusted += [
@@ -200,6 +229,7 @@ def run(ctx):
         level="proof",
         rule="(1) random report scripts (0-7 reports, colliding keys and duplicates) through the real engine vs the Coq model; "
              "(2) documents from POOL + D_line(V_ALL,k<=2) + 3-line container/inline documents + D_char(12 chars, n<=4) + trigger-line pairs and repetitions (quick: seed-selected subset of the space thorough walks completely), scanned with default rules, all rules, and each rule alone; "
+             "(3) documents with failures scanned twice in one invocation (two names, a file of pragmas aimed at the same lines and rules between them); "
              "non-trivial = a script, or a scan that reported at least one failure; distinct by input",
         assumptions=["a column is judged against the line with tabs expanded to 4-column tab stops (the unit the rules use); the property is silent on the unit",
                      "line range is judged against the lines as delivered to rules (text.split('\\n'): the empty piece after a final newline counts)",
